@@ -311,6 +311,17 @@ def generate(tier, rng):
             b.add(mk_call(xid=rx(), cred=cred, verf=verf, vers=3, proc=3), False, v6=True)
             b.add(mk_call(xid=rx(), cred=cred, verf=verf, vers=2, proc=4), True)
         b.add(mk_call(xid=rx(), verf=verf, pad=False), False)
+    # well-formed AUTH_SYS credentials (flavor 1: stamp, machine name, uid, gid, gids) whose machine name is long and
+    # has bytes outside ASCII around the lengths where a log line might cut it: a call is answered whatever the
+    # credentials say
+    k = 0
+    for n in (15, 16, 17, 30, 31, 32, 33, 62, 63, 64, 65, 127, 128, 254, 255):
+        for tail in (b"\xe9", b"\xc3\xa9", b"\xe2\x82\xac", b"\xf0\x9f\x98\x80"):
+            for cut in range(0, 4):
+                k += 1
+                name = b"h" * (n - cut) + tail + b"zz"
+                cred = struct.pack("!I", 0x5eed) + xdr_opaque(name, True) + struct.pack("!III", 1000, 1000, 0)
+                b.add(mk_call(xid=rx(), cred=cred, vers=(2, 3, 4)[k % 3], proc=(3, 4)[k % 2]), k % 4 == 0, v6=k % 5 == 0)
     # length words that lie
     for lie in (0x7fffffff, 0xffffffff, 0x01000000, 65):
         p = struct.pack("!IIIIII", 0xa1b2c3d4, 0, 2, 100000, 2, 3) + struct.pack("!II", 1, lie) + b"abcdefgh" * 4
